@@ -346,6 +346,31 @@ func propC08(run *Run, n int) {
 				}
 				dw := implDiff(c.o, a.Wire(), b.Wire())
 				t := a.Clone()
+				variant := r.Intn(3)
+				if variant == 1 {
+					// no twin: the exact pass finds the member only when it holds null; a member lacking the key is
+					// found by the second, tolerant pass
+					run.Count("target:directed-null-notwin")
+					addC08Case(run, c.lbl, t, dw)
+					continue
+				}
+				if variant == 2 {
+					// the addressed member is gone: both passes run over the remaining members and fail
+					keep := []*Val{}
+					for _, e := range t.A {
+						if e.K == KObj && e.O["a"] != nil && e.O["a"].K == KNum && e.O["a"].N == 1 {
+							kv, has := e.O["k"]
+							if (absent && !has) || (!absent && has && kv.K == KNull) {
+								continue
+							}
+						}
+						keep = append(keep, e)
+					}
+					t.A = keep
+					run.Count("target:directed-null-member-gone")
+					addC08Case(run, c.lbl, t, dw)
+					continue
+				}
 				for jj, e := range t.A {
 					if e.K == KObj && e.O["a"] != nil && e.O["a"].K == KNum && e.O["a"].N == 1 {
 						kv, has := e.O["k"]
@@ -629,6 +654,51 @@ func propC06(run *Run, n int) {
 			b = cfg.Mutate(r, a, 4)
 			if b.K != KArr {
 				b = cfg.Arr(r, 0)
+			}
+		}
+		if r.Chance(1, 6) {
+			// chained use of the API: a document read from text is diffed against the document an earlier
+			// Patch returned (its edited arrays are typed jsonList nodes). In this direction the library
+			// recurses and the hunks are those of the plain documents, so the oracle applies.
+			// directed: an inner array X at some position; Patch edits inside it (X -> X1), a fresh document
+			// holds X2 there, different from X1 at one position
+			inner := arrs[1+r.Intn(len(arrs)-1)]
+			mut := func(xs []*Val) []*Val {
+				out := make([]*Val, len(xs))
+				for j := range xs {
+					out[j] = xs[j].Clone()
+				}
+				j := r.Intn(len(out))
+				out[j] = VNum(float64(3 + r.Intn(4)))
+				return out
+			}
+			x1, x2 := mut(inner), mut(inner)
+			pre := []*Val{}
+			for k := r.Intn(3); k > 0; k-- {
+				pre = append(pre, VNum(float64(r.Intn(3))))
+			}
+			post := []*Val{}
+			for k := r.Intn(3); k > 0; k-- {
+				post = append(post, VNum(float64(r.Intn(3))))
+			}
+			mk := func(x []*Val) *Val {
+				l := []*Val{}
+				for _, e := range pre {
+					l = append(l, e.Clone())
+				}
+				l = append(l, VArr(x...))
+				for _, e := range post {
+					l = append(l, e.Clone())
+				}
+				return VArr(l...)
+			}
+			a0, b0, c0 := mk(inner), mk(x1), mk(x2)
+			_, outcome, _ := implDiffPatch(OptNone, a0.Wire(), b0.Wire())
+			if strings.HasPrefix(outcome, "ok ") {
+				if pv, err := ParseWire(outcome[3:]); err == nil && pv.K == KArr {
+					addC06Case(run, "fresh-vs-patched", c0, pv, 0, nil)
+					continue
+				}
 			}
 		}
 		switch r.Intn(3) {
